@@ -10,6 +10,7 @@ Id2   == [s1 |-> {<<"m1", 3>>}, s2 |-> {<<"m2", 4>>}]
 Id2x  == [s1 |-> {<<"m1", 3>>, <<"m1x", 4>>}, s2 |-> {<<"m2", 4>>}]
 \* five servers of which only two ever answer
 Id5   == [s1 |-> {<<"m1", 3>>}, s2 |-> {<<"m2", 4>>}, s3 |-> {}, s4 |-> {}, s5 |-> {}]
+Id5x  == [s1 |-> {<<"m1", 3>>, <<"m1x", 4>>}, s2 |-> {<<"m2", 4>>}, s3 |-> {}, s4 |-> {}, s5 |-> {}]
 HomeAll == [s1 |-> <<"m1", 3>>, s2 |-> <<"m2", 4>>, s3 |-> <<"m3", 3>>, s4 |-> <<"m4", 4>>, s5 |-> <<"m5", 4>>]
 \* ---- client connections
 FD == [f1 |-> [cip |-> "a", cmac |-> "ca", sp |-> 5000, dp |-> 80],
@@ -22,11 +23,10 @@ P1 == {1}
 P12 == {1, 2}
 D1 == {1}
 D12 == {1, 2}
-D125 == {1, 2, 5}
+D1234 == {1, 2, 3, 4}
 D3 == {3}
 D2 == {2}
 D23 == {2, 3}
-DReal == {1, 2, 3, 7, 19, 100, 299}
 DNat == Nat
 NoOther == {}
 AllOther == {"udp", "tcpx", "arpreq", "arpcli"}
